@@ -32,6 +32,8 @@ QUICK = [
     ('last_asset_outside_horizon', dict(T=3, wins=((0, 3), (1, 3), (6, 8))), None, 'B'),
     ('last_asset_outside_horizon_split', dict(T=4, wins=((0, 4), (1, 3), (6, 8))), '2h', 'A'),
     ('scaled_periodic_base', dict(T=5, base='periodic_contract'), None, 'B'),
+    ('multicommodity_three_nodes', dict(T=2, factors=(1.0, 0.5, 2.0), take=(0, 2)), None, 'B'),
+    ('structured_two_external_nodes', dict(T=2, two_external=True), None, 'B'),
     ('split_structured', dict(T=4), '2h', 'A'),
     ('split_scaled_storage', dict(T=4, base='storage'), '2h', 'A'),
 ]
